@@ -278,7 +278,13 @@ def eval_state(case):
         return fails
     for a in accepted:
         ci3, objs3, names3, f3 = build(case, tok, arch)
+        prime = queries(ci3, objs3, forest, "before add(%s,%s)" % (a["c"], a["o"]), arch, True)      # fills any cache
         out = do_add(ci3, objs3, a["c"], a["o"])
+        if out == "ok" and not prime:
+            after = queries(ci3, objs3, sorted(set(forest) | set([a["o"]])), "forest %s then add(%s,%s), queried before and after the add"
+                            % (_short(case["hist"]), a["c"], a["o"]), arch, True)
+            if after:
+                return after
         if out != "ok":
             return ["add(%s,%s) after %s is valid (model: ok), code raised %s" % (a["c"], a["o"], _short(case["hist"]), out)]
         k3, p3 = project(ci3, objs3, names3)
